@@ -544,3 +544,21 @@ def bool_leaves(t, tests=()):
             if r is not False:
                 out.append((tuple(ts) + tuple(r), ("lit", pol)))
     return out
+
+
+def canon_exists(t):
+    """`some element of L satisfies P` in one spelling: ('exists', L, P over ('at', L), polarity) - from `L.iter().any(|x| P)` and from the
+    flag loop `let mut f = false; for x in L { if P { f = true; break } }` tested afterwards"""
+    if t[0] == "cond" and isinstance(t[1], tuple) and t[1][:2] == ("call", "Iterator::any") and len(t[1][2]) == 2:
+        L, f = t[1][2]
+        if isinstance(f, tuple) and f[:1] == ("closure",) and len(f[1]) == 1:
+            return ("exists", norm(L), norm(sym.subst(f[2], {f[1][0]: ("at", norm(L))})), t[2])
+    if t[0] in ("eq", "cond") and isinstance(t[1], tuple) and t[1][:1] == ("phi",) and t[1][1][:1] == ("if",) and isinstance(t[2], bool):
+        arms = dict(t[1][2])
+        if arms.get("then") == ("lit", True) and strip_acc(arms.get("else")) == ("lit", False):
+            B = t[1][1][1]
+            eachs = {x for x in sym.subterms(B) if isinstance(x, tuple) and len(x) == 2 and x[0] == "each"}
+            if len(eachs) == 1:
+                e = eachs.pop()
+                return ("exists", norm(e[1]), norm(replace(B, {e: ("at", norm(e[1]))})), t[2])
+    return t
